@@ -12,6 +12,7 @@ package kv
 import (
 	"context"
 	"io"
+	"sync"
 	"time"
 
 	"github.com/synnaxlabs/alamos"
@@ -177,6 +178,7 @@ func Open(ctx context.Context, cfgs ...Config) (db *DB, err error) {
 	if err != nil {
 		return nil, err
 	}
+	cfg.applyMu = &sync.Mutex{}
 
 	sCtx, cancel := signal.Isolated(signal.WithInstrumentation(cfg.Instrumentation))
 	db = &DB{
